@@ -91,7 +91,17 @@ class ForeignXmlGen:
                 else:
                     c.set("{%s}ref" % PROV, self.name(prefixes, default))
         tails = [t for t in TAIL if r.random() < 0.3]
+        second = None
+        if label != kind and r.random() < 0.5:
+            # a second PROV subtype of the same base class, as a prov:type child of a subtype element
+            second = r.choice([t for (_l, t) in SUBTYPE_EL[kind]])
+            if "prov:type" not in tails:
+                tails = [t for t in TAIL if t in tails or t == "prov:type"]
         for t in tails:
+            if t == "prov:type" and second is not None:
+                c = etree.SubElement(el, q("prov:type", nsmap))
+                c.set("{%s}type" % XSI, "xsd:QName")
+                c.text = second
             for _ in range(2 if r.random() < 0.2 else 1):
                 self.value_child(el, t, nsmap, prefixes, default)
         others = sorted(self.name([p for p in prefixes], False) for _ in range(r.randint(0, 2)))
